@@ -15,6 +15,7 @@ import Golib.HMap.PlainStep
 import Golib.HMap.Types
 import Golib.HMap.Multi
 import Golib.HMap.Enum
+import Golib.HMap.MultiLemmas
 
 set_option linter.unusedSectionVars false
 
@@ -168,6 +169,24 @@ theorem pool_target (hash : K → Nat) (thr : Nat → Nat) (d : PDesc K V) (dflt
 theorem putAll_source (hash : K → Nat) (d : PDesc K V) (src : PMap K V) (s : PS K V) (h : PMap.Rel hash d src s) :
     src.tab.entries.Perm s.ents := PMap.entries_perm h
 
+/-- **histories over several live containers**: every interleaved history over a pool of maps answers like the pool of
+    finite maps (enumerations as multisets) and keeps every slot related to its own map — `no_aliasing` lifted to `foldl step` -/
+theorem pool_refine_run (hash : K → Nat) (thr : Nat → Nat) (d : PDesc K V) (dflt : PMap K V) (sdflt : PS K V)
+    (ops : List (Nat × POp K V)) (pool : Array (PMap K V)) (spool : Array (PS K V))
+    (h : PMap.PoolRel hash d dflt sdflt pool spool) (hops : ∀ o ∈ ops, o.1 < pool.size) :
+    Outs.equiv (poolRun (PMap.step hash thr d) dflt pool ops).2 (poolRun (PS.step d) sdflt spool ops).2 ∧
+    PMap.PoolRel hash d dflt sdflt (poolRun (PMap.step hash thr d) dflt pool ops).1 (poolRun (PS.step d) sdflt spool ops).1 :=
+  let r := PMap.pool_refine_run thr dflt sdflt ops h hops
+  ⟨r.2, r.1⟩
+
+/-- The premise "while the structure is not being modified" is needed: an enumerator taken before a modification
+    and drained after it is outside the property (here it misses the element put meanwhile; the table it captured is the old value). -/
+theorem enumeration_premise_is_needed :
+    let d : PDesc Int Int := { comb := fun a b => a + b, veq := fun a b => a == b }
+    let m := (PMap.run (fun k : Int => k.toNat) (fun c => c) d (PMap.new (fun c => c) 7) [.put 1 10]).1
+    let m' := (PMap.step (fun k : Int => k.toNat) (fun c => c) d m (.put 2 20)).1
+    PEnum.drain m.tab 5 m.tab.openEnum = [(1, 10)] ∧ PEnum.drain m'.tab 5 m'.tab.openEnum = [(2, 20), (1, 10)] := by decide
+
 /-! ### recorded deviations -/
 
 /-- full statement: `add` returns the previous value (absent for a fresh key), like `put`.  It holds when
@@ -278,5 +297,20 @@ example :
     let d : PDesc String Int := { comb := fun a b => a + b, veq := fun a b => a == b, refuse := fun k => k == "r", addFreshNew := true }
     (PS.add d {} "a" 7).2 = some 7 ∧ (PS.add d (PS.add d {} "a" 7).1 "a" 1).2 = some 7 ∧ (PS.add d {} "r" 7).2 = none := by
   decide
+
+/-- `pool_refine_run`: its premise holds for a pool of fresh maps, and an interleaved history over two slots computes -/
+example :
+    let d : PDesc Int Int := { comb := fun a b => a + b, veq := fun a b => a == b }
+    PMap.PoolRel (fun k : Int => k.toNat) d (PMap.new (fun c => c) 1) {}
+      #[PMap.new (fun c => c) 1, PMap.new (fun c => c) 4] #[{}, {}] ∧
+    (poolRun (PMap.step (fun k : Int => k.toNat) (fun c => c) d) (PMap.new (fun c => c) 1)
+      #[PMap.new (fun c => c) 1, PMap.new (fun c => c) 4]
+      [(0, .put 1 10), (1, .put 1 11), (0, .remove 1), (1, .get 1), (0, .size), (1, .size)]).2
+      = [.none, .none, .val 10, .val 11, .nat 0, .nat 1] := by
+  refine ⟨⟨rfl, fun i hi => ?_⟩, by decide⟩
+  have hi' : i < 2 := hi
+  match i, hi' with
+  | 0, _ => exact rel_init _ _ _ 1
+  | 1, _ => exact rel_init _ _ _ 4
 
 end C12
